@@ -282,10 +282,12 @@ BOUNDS_TEXT = ("binary operations and __eq__: every pair of operand shapes with 
                "__init__: every argument list of up to %d ints / (lo, hi) tuples; all end points are unbounded symbolic integers" % (
                    MAXN, NMAX1, 3 if tier() == "quick" else 4))
 LEVEL = "exploration"
-ASSUMED = ["bisect.bisect, sorted, filter, max, min run as the real CPython code on proxies (comparisons fork paths)",
+ASSUMED = ["constructor contract used by the unbounded proofs: IntegerSet(*ranges) is canonical and x in it <=> x in one of the given ranges (checked shape-bounded only)",
+           "T4 bisect.bisect on a sequence sorted by first component returns the partition index (pyvc.models.bisect_proxy)",
+           "bisect.bisect, sorted, filter, max, min run as the real CPython code on proxies in the shape-bounded part (comparisons fork paths)",
            "|view| == sum of range sizes uses that canonical ranges are pairwise disjoint (finite-set arithmetic, T5)"]
-NOT_COVERED = ["operands with more ranges than the stated shape bound (the loops of intersection / difference / merge_overlapping_intervals "
-               "are not cut at invariants in this revision)", "__iter__ (enumeration of every member)"]
+NOT_COVERED = ["the constructor (IntegerSet.__init__ + merge_overlapping_intervals) for argument lists longer than the shape bound: its contract is ASSUMED by the unbounded "
+               "proofs of intersection / difference / union and checked shape-bounded only", "__iter__ (enumeration of every member)", "__eq__ beyond the shape bound"]
 
 
 # ================= deductive part: ranges of ANY length (pair-sequence proxy over arrays) =====================
@@ -385,3 +387,214 @@ for _t in ("cardinality",):
                        decreases=lambda e: mk(e.it0__.seq.n - as_z3_int(e.it0__.pos)))} if _t == "cardinality" else None))
 
 LEVEL = "proof"
+
+
+# ---- intersection / difference for operands of ANY length (loop invariants A.5 / A.6; the constructor is an assumed,
+# shape-bounded-checked contract: IntegerSet(*ranges) is canonical and denotes the union of the given ranges) ------------
+def _stub_integerset(real_cls, x0):
+    def IntegerSetSpec(*args):
+        if len(args) == 1 and isinstance(args[0], MD.StarOf):
+            lst = args[0].lst
+            s = real_cls()
+            ps = MD.SymPairSeq(ctx().fresh_name("res"))
+            s.ranges = ps
+            c = ctx()
+            for ax in _canonical_axioms(ps):
+                c.assume(ax)
+            # contract of the constructor (instance at the skolem point x0): the result denotes the union of the given pairs
+            c.assume(MD.in_view(x0, ps) == MD.in_view(x0, lst))
+            return s
+        return real_cls(*args)
+    return IntegerSetSpec
+
+
+def _setup_algebra(g):
+    import ppci.utils.integer_set as m
+    old = (m.bisect, m.IntegerSet)
+    m.bisect = MD.bisect_proxy
+
+    def undo():
+        m.bisect, m.IntegerSet = old
+    return undo
+
+
+def _mk_alg(c, g):
+    import ppci.utils.integer_set as m
+    real = m.IntegerSet if isinstance(m.IntegerSet, type) else m.IntegerSet.__wrapped_cls__
+    x0 = make_value("int", "x0", c)
+    stub = _stub_integerset(real, x0)
+    stub.__wrapped_cls__ = real
+    m.IntegerSet = stub
+    a, b = real(), real()
+    A, Bq = MD.SymPairSeq("A"), MD.SymPairSeq("B")
+    a.ranges, b.ranges = A, Bq
+    return {"args": [a, b], "env": {"A": A, "B": Bq, "a": a, "b": b, "x0": x0}, "inputs": {"x0": x0}}
+
+
+def _alg_pre(e):
+    return _canonical_axioms(e.A) + _canonical_axioms(e.B)
+
+
+def _link(item, it, seq):
+    """item is the element last fetched from iterator `it` over `seq` (None iff exhausted)"""
+    pos = as_z3_int(it.pos)
+    if item is None:
+        return mkb(pos == seq.n)
+    return mkb(z3.And(pos >= 1, pos <= seq.n, as_z3_int(item[0]) == z3.Select(seq.lo, pos - 1), as_z3_int(item[1]) == z3.Select(seq.hi, pos - 1)))
+
+
+def _cur(item, it, seq):
+    return seq.n if item is None else as_z3_int(it.pos) - 1
+
+
+def _havoc_item(cur, c, name):
+    b = z3.Bool(c.fresh_name(name + ".none"))
+    if c.decide(b):
+        return None
+    return (SymInt(z3.Int(c.fresh_name(name + ".lo"))), SymInt(z3.Int(c.fresh_name(name + ".hi"))))
+
+
+def _inter_inv(e):
+    A, Bq = e.old.A, e.old.B
+    x0 = e.old.x0
+    ia, jb = _cur(e.r, e.i, A), _cur(e.s, e.j, Bq)
+    lhs = z3.Or(MD.in_view(x0, e.ranges), z3.And(MD.in_view(x0, A, ia), MD.in_view(x0, Bq, jb)))
+    rhs = z3.And(MD.in_view(x0, A), MD.in_view(x0, Bq))
+    return [("r is the element last fetched from self.ranges (None iff exhausted)", _link(e.r, e.i, A)),
+            ("s is the element last fetched from other.ranges (None iff exhausted)", _link(e.s, e.j, Bq)),
+            ("emitted ranges + what the remaining suffixes can still contribute => x0 in both operands", mkb(z3.Implies(lhs, rhs))),
+            ("x0 in both operands => already emitted or still obtainable from the remaining suffixes", mkb(z3.Implies(rhs, lhs)))]
+
+
+def _canonical_obligations(R):
+    lo, hi, n = MD.pairs_of(R)
+    a, b = z3.Ints("co!a co!b")
+    return [("result canonical: every range non-empty", mkb(z3.ForAll([a], z3.Implies(z3.And(a >= 0, a < n), z3.Select(lo, a) <= z3.Select(hi, a))))),
+            ("result canonical: sorted, non-overlapping, non-adjacent (hi_a + 1 < lo_b for a < b)",
+             mkb(z3.ForAll([a, b], z3.Implies(z3.And(a >= 0, a < b, b < n), z3.Select(hi, a) + 1 < z3.Select(lo, b)))))]
+
+
+def _inter_post(e):
+    R = e.result.ranges
+    x0 = e.old.x0
+    both = z3.And(MD.in_view(x0, e.old.A), MD.in_view(x0, e.old.B))
+    return _canonical_obligations(R) + [("x0 in result => x0 in self and in other (arbitrary integer x0)", mkb(z3.Implies(MD.in_view(x0, R), both))),
+            ("x0 in self and in other => x0 in result (arbitrary integer x0)", mkb(z3.Implies(both, MD.in_view(x0, R))))]
+
+
+def _new_list(cur, c, name):
+    return MD.SymPairList(name, c)
+
+
+CONTRACTS.append(Contract(
+    M + ":IntegerSet.intersection", "C33", label=M + ":IntegerSet.intersection (operands of any length)", modules=[M], setup=_setup_algebra,
+    make=_mk_alg, requires=_alg_pre, ensures=_inter_post,
+    loops={0: Loop(havoc={"ranges": ("object", _new_list), "i": ("object", MD.havoc_pair_iter), "j": ("object", MD.havoc_pair_iter),
+                          "r": ("object", _havoc_item), "s": ("object", _havoc_item)},
+                   invariant=_inter_inv,
+                   decreases=lambda e: mk((e.old.A.n - as_z3_int(e.i.pos)) + (e.old.B.n - as_z3_int(e.j.pos)) + (0 if e.r is None else 1) + (0 if e.s is None else 1)))}))
+
+
+def _diff_inv(e):
+    A, Bq = e.old.A, e.old.B
+    x0 = as_z3_int(e.old.x0)
+    pi = as_z3_int(e.i.pos)
+    jb = _cur(e.s, e.j, Bq)
+    out = []
+    if e.r is None:
+        out.append(("r is None iff self.ranges is exhausted", mkb(pi == A.n)))
+        rest = z3.BoolVal(False)
+    else:
+        r0, r1 = as_z3_int(e.r[0]), as_z3_int(e.r[1])
+        out.append(("r is the not yet handled tail of the range last fetched from self.ranges",
+                    mkb(z3.And(pi >= 1, pi <= A.n, z3.Select(A.lo, pi - 1) <= r0, r0 <= r1, r1 == z3.Select(A.hi, pi - 1)))))
+        b = z3.Int("df!b")
+        out.append(("every range of other before the current one ends below r",
+                    mkb(z3.ForAll([b], z3.Implies(z3.And(b >= 0, b < jb), z3.Select(Bq.hi, b) < r0)))))
+        rest = z3.Or(z3.And(r0 <= x0, x0 <= r1), MD.in_view(x0, A, pi))
+    out.append(("s is the element last fetched from other.ranges (None iff exhausted)", _link(e.s, e.j, Bq)))
+    lhs = z3.Or(MD.in_view(x0, e.ranges), z3.And(rest, z3.Not(MD.in_view(x0, Bq, jb))))
+    rhs = z3.And(MD.in_view(x0, A), z3.Not(MD.in_view(x0, Bq)))
+    out += [("emitted ranges + (rest of self minus rest of other) => x0 in self and not in other", mkb(z3.Implies(lhs, rhs))),
+            ("x0 in self and not in other => already emitted or still obtainable", mkb(z3.Implies(rhs, lhs)))]
+    return out
+
+
+def _diff_post(e):
+    R = e.result.ranges
+    x0 = e.old.x0
+    want = z3.And(MD.in_view(x0, e.old.A), z3.Not(MD.in_view(x0, e.old.B)))
+    return _canonical_obligations(R) + [("x0 in result => x0 in self and not in other (arbitrary integer x0)", mkb(z3.Implies(MD.in_view(x0, R), want))),
+            ("x0 in self and not in other => x0 in result (arbitrary integer x0)", mkb(z3.Implies(want, MD.in_view(x0, R))))]
+
+
+CONTRACTS.append(Contract(
+    M + ":IntegerSet.difference", "C33", label=M + ":IntegerSet.difference (operands of any length)", modules=[M], setup=_setup_algebra,
+    make=_mk_alg, requires=_alg_pre, ensures=_diff_post,
+    loops={0: Loop(havoc={"ranges": ("object", _new_list), "i": ("object", MD.havoc_pair_iter), "j": ("object", MD.havoc_pair_iter),
+                          "r": ("object", _havoc_item), "s": ("object", _havoc_item)},
+                   invariant=_diff_inv)}))
+
+
+# union: concatenation of the two range tuples handed to the constructor (constructor contract as above)
+def _union_post(e):
+    R = e.result.ranges
+    x0 = e.old.x0
+    either = z3.Or(MD.in_view(x0, e.old.A), MD.in_view(x0, e.old.B))
+    return _canonical_obligations(R) + [("x0 in result => x0 in self or in other (arbitrary integer x0)", mkb(z3.Implies(MD.in_view(x0, R), either))),
+            ("x0 in self or in other => x0 in result (arbitrary integer x0)", mkb(z3.Implies(either, MD.in_view(x0, R))))]
+
+
+CONTRACTS.append(Contract(
+    M + ":IntegerSet.union", "C33", label=M + ":IntegerSet.union (operands of any length)", modules=[M], setup=_setup_algebra,
+    make=_mk_alg, requires=_alg_pre, ensures=_union_post))
+
+
+# symmetric_difference: verified modularly against the contracts of difference and union (callees replaced by stubs)
+def _mk_symdiff(c, g):
+    import ppci.utils.integer_set as m
+    made = _mk_alg(c, g)
+    real = m.IntegerSet.__wrapped_cls__
+    x0 = made["env"]["x0"]
+
+    def _fresh_set(cond):
+        s = real()
+        ps = MD.SymPairSeq(ctx().fresh_name("stub"))
+        s.ranges = ps
+        for ax in _canonical_axioms(ps):
+            ctx().assume(ax)
+        ctx().assume(MD.in_view(x0, ps) == cond)
+        return s
+
+    def difference(self, other):
+        return _fresh_set(z3.And(MD.in_view(x0, self.ranges), z3.Not(MD.in_view(x0, other.ranges))))
+
+    def union(self, other):
+        return _fresh_set(z3.Or(MD.in_view(x0, self.ranges), MD.in_view(x0, other.ranges)))
+    made["env"]["saved"] = (real.difference, real.union)
+    real.difference, real.union = difference, union
+    return made
+
+
+def _setup_symdiff(g):
+    import ppci.utils.integer_set as m
+    real = m.IntegerSet
+    old = (m.bisect, m.IntegerSet, real.difference, real.union)
+    m.bisect = MD.bisect_proxy
+
+    def undo():
+        m.bisect, m.IntegerSet = old[0], old[1]
+        real.difference, real.union = old[2], old[3]
+    return undo
+
+
+def _symdiff_post(e):
+    R = e.result.ranges
+    x0 = e.old.x0
+    ina, inb = MD.in_view(x0, e.old.A), MD.in_view(x0, e.old.B)
+    return _canonical_obligations(R) + [("x0 in result <=> x0 in exactly one of self, other (arbitrary integer x0)", mkb(MD.in_view(x0, R) == z3.Xor(ina, inb)))]
+
+
+CONTRACTS.append(Contract(
+    M + ":IntegerSet.symmetric_difference", "C33", label=M + ":IntegerSet.symmetric_difference (operands of any length; callees by contract)",
+    modules=[M], setup=_setup_symdiff, make=_mk_symdiff, requires=_alg_pre, ensures=_symdiff_post))
